@@ -268,7 +268,23 @@ def _outer_def(fn: ast.AST, stmt: ast.AST, name: str):
     return None
 
 
+_REACH_CACHE: Dict[Tuple[int, str, int], Tuple[ast.AST, ast.AST, object]] = {}
+
+
 def reaching(fn: ast.AST, name: str, at: ast.AST):
+    """Memoised :func:`_reaching` (the key holds references to the nodes, so ids cannot be recycled)."""
+    key = (id(fn), name, id(at))
+    hit = _REACH_CACHE.get(key)
+    if hit is not None and hit[0] is fn and hit[1] is at:
+        return hit[2]
+    val = _reaching(fn, name, at)
+    if len(_REACH_CACHE) > 200000:
+        _REACH_CACHE.clear()
+    _REACH_CACHE[key] = (fn, at, val)
+    return val
+
+
+def _reaching(fn: ast.AST, name: str, at: ast.AST):
     """Expression reaching the use of local `name` at node `at`.
 
     Returns an ast expression, an :class:`Opaque`, or None when the name is a
